@@ -7,7 +7,9 @@ use serde_json::{json, Value};
 
 use crate::explore::{Stats, Violation};
 
-pub const VERIF_ROOT: &str = "/verif";
+pub fn verif_root() -> String {
+    std::env::var("VERIF_ROOT").unwrap_or_else(|_| "/verif".to_string())
+}
 
 pub fn seed() -> i64 {
     std::env::var("VERIF_SEED").ok().and_then(|s| s.parse().ok()).unwrap_or(0)
@@ -19,7 +21,7 @@ pub struct Known {
 }
 
 pub fn load_known() -> Known {
-    let p = Path::new(VERIF_ROOT).join("known_findings.json");
+    let p = Path::new(&verif_root()).join("known_findings.json");
     let mut k = Known { findings: vec![] };
     if let Ok(s) = std::fs::read_to_string(&p) {
         match serde_json::from_str::<Value>(&s) {
@@ -85,7 +87,7 @@ impl Report {
         let mut printed_known = BTreeSet::new();
         let mut new_violations = 0;
         let mut known_hits = Vec::new();
-        let dir: PathBuf = Path::new(VERIF_ROOT).join("replays").join(&self.prop);
+        let dir: PathBuf = Path::new(&verif_root()).join("replays").join(&self.prop);
         for (i, v) in self.violations.iter().enumerate() {
             let k = known.findings.iter().find(|(p, sig, _)| *p == self.prop && *sig == v.sig);
             if let Some((_, sig, what)) = k {
@@ -130,7 +132,7 @@ impl Report {
             "wall_s": self.wall_s,
             "violations": new_violations,
         });
-        let evdir = Path::new(VERIF_ROOT).join("evidence");
+        let evdir = Path::new(&verif_root()).join("evidence");
         let _ = std::fs::create_dir_all(&evdir);
         let evp = evdir.join(format!("{}.json", self.prop));
         if let Err(e) = std::fs::write(&evp, serde_json::to_string_pretty(&ev).unwrap()) {
